@@ -257,6 +257,15 @@ class LoopMixin:
                 else:
                     st.heap[v.oid] = nd
                 continue
+            from .values import SymAtts
+            if isinstance(v, Ref) and (isinstance(st.deref(v), SymAtts) or
+                                       (isinstance(st.deref(v), DictV) and hints.get(nm) == "atts")):
+                nd = SymAtts(fresh(nm, T.Atts))
+                if nm in names:
+                    st.env[nm] = st.alloc(nd)
+                else:
+                    st.heap[v.oid] = nd
+                continue
             if isinstance(v, Ref) and isinstance(st.deref(v), (DictV, AbsV)):
                 if getattr(self.contract, "abstract", False):
                     if nm in names:
@@ -534,7 +543,16 @@ class LoopMixin:
             if len(conds) == 1 and isinstance(val, Sym) and val.t.eq(e.t) and not isinstance(c, bool) and \
                     z3.simplify(c).eq(z3.simplify(z3.Length(T.ChunkS.s(e.t)) > 0)):
                 st.fact(Lemmas.drop_empty(xs))
-                return st.alloc(ListV(tag="chunk", t=T.DROPE(xs)))
+                d = T.DROPE(xs)
+                # filter facts (lean/Lemmas.lean: mem_filter): every kept run is a run of xs with characters; a run with
+                # characters makes the result non-empty; nothing is invented
+                st.fact(z3.Length(d) <= z3.Length(xs))
+                st.add_inst(lambda i, d=d, xs=xs: z3.Implies(z3.And(i >= 0, i < z3.Length(d)),
+                                                             z3.And(T.DROPJ(xs, i) >= 0, T.DROPJ(xs, i) < z3.Length(xs),
+                                                                    d[i] == xs[T.DROPJ(xs, i)], z3.Length(T.ChunkS.s(d[i])) > 0)))
+                st.add_inst(lambda j, d=d, xs=xs: z3.Implies(z3.And(j >= 0, j < z3.Length(xs), z3.Length(T.ChunkS.s(xs[j])) > 0),
+                                                             z3.Length(d) > 0))
+                return st.alloc(ListV(tag="chunk", t=d))
             raise Unsupported("filtered comprehension other than `x for x in xs if x.s`")
         if isinstance(val, Sym) and val.t.eq(e.t):
             return st.alloc(ListV(tag="chunk", t=xs))          # identity map
@@ -572,10 +590,14 @@ class LoopMixin:
                 conds, val = self.gen_apply(src, e, probe)
             except (NeedSplit, PyRaise):
                 conds, val = None, None
+            if conds and kind in ("all", "any") and len(args) == 1:
+                return self.quantified_fold(kind, src, xs, st)
             if conds is None or conds:
                 if kind == "sum" and conds is None:
                     return self.sum_over_range(src, args[1] if len(args) > 1 else 0, st)
                 raise Unsupported("filtered fold")
+            if kind in ("all", "any") and len(args) == 1 and (isinstance(val, Sym) and val.tag == "bool" or isinstance(val, bool)):
+                return self.quantified_fold(kind, src, xs, st)
             et = e.t
             if kind == "sum" and len(args) == 1 and is_int(val):
                 vt = z3.simplify(int_term(val))
@@ -598,6 +620,32 @@ class LoopMixin:
         if not sp.sources and kind == "sum" and len(args) == 2:
             return self.sum_over_range(src, args[1], st)
         raise Unsupported(f"{kind} over this iteration space")
+
+    def quantified_fold(self, kind, gv, xs, st):
+        """all(elt(x) for x in xs if cond(x)) / any(...) over a symbolic run list: a fresh boolean R with
+             all: R  => forall i. cond(xs[i]) => elt(xs[i])        not R => a witness w with cond(xs[w]) and not elt(xs[w])
+             any: dually.   (the universally quantified half is an instantiable fact)"""
+        n = z3.Length(xs)
+        R = fresh(kind, T.B)
+
+        def body(i, s):
+            conds, val = self.gen_apply(gv, Sym("chunk", xs[i]), s)
+            cs = [z3.BoolVal(c) if isinstance(c, bool) else c for c in conds]
+            t = self.truth(val, s)
+            t = z3.BoolVal(t) if isinstance(t, bool) else t
+            return (z3.And(*cs) if cs else z3.BoolVal(True)), t
+        w = fresh("w", T.I)
+        cw, tw = body(w, st)
+        pos = R if kind == "all" else z3.Not(R)         # the polarity under which the universal half holds
+
+        def inst(i, st=st):
+            c, t = body(i, st)
+            claim = z3.Implies(c, t) if kind == "all" else z3.Implies(c, z3.Not(t))
+            return z3.Implies(z3.And(pos, i >= 0, i < n), claim)
+        st.add_inst(inst)
+        st.fact(z3.Implies(z3.Not(pos), z3.And(w >= 0, w < n, cw, z3.Not(tw) if kind == "all" else tw)))
+        st.add_index(w)
+        return Sym("bool", R)
 
     def fold_concrete(self, kind, items, rest, st):
         if kind == "sum":
